@@ -326,7 +326,9 @@ def genComposedTy (ctx : GCtx) : Gen Ty := do
 /-- `Self` somewhere inside a type (for the `Output`, the right-hand side and the where-clause of an `impl`) -/
 def genComposedSelf : Gen Ty := do
   let depth ← pickW [(3, 1), (3, 2), (1, 3)]
-  wrapTy false Ty.selfTy depth
+  -- `Self::Output` is not a type node `Self`: it is left alone (in every generated impl it names that impl's own `Output`)
+  let leaf ← pickW [(6, Ty.selfTy), (1, .path false [.mk "Self" [], .mk "Output" []])]
+  wrapTy false leaf depth
 
 def genTy (cfg : GCfg) (ctx : GCtx) : Gen Ty := do
   if ← chance cfg.trickyPct 100 then pick trickyTys
